@@ -15,6 +15,8 @@ mod c01;
 #[cfg(kani)]
 mod c04;
 #[cfg(kani)]
+mod c06;
+#[cfg(kani)]
 mod warmup {
     kproof!(warmup, 4, {
         let x: u8 = kani::any();
